@@ -104,3 +104,81 @@ def verdict(op, kind):
     if op == "max":
         return kind == "low"
     return kind == "high"
+
+
+def incumbents(fn):
+    """Running best-of-n kept in locals: `if cand < best { saved = ..; [best = cand;] }` inside a loop.
+    yields dict(node, best, best_name, saved, updated, evidence) for every such test where
+      * `best` is a local declared outside the enclosing loop,
+      * the then-branch assigns at least one other local declared outside the loop and neither breaks nor returns,
+      * `best` is an incumbent and not a fixed threshold: it was declared in the same `let` pattern as a saved local
+        (`let (mut best_c, best_cost) = candidate()`), or starts from an identity element (infinity / max_value ...),
+        or is assigned somewhere in the function.
+    `updated` tells whether the branch (or a statement after it in the loop body) assigns `best`."""
+    c = fn["crate"]
+    from .layout import with_parents
+    decl = {}       # local -> (LetStmt node, set of sibling locals of the same pattern)
+    names = {}
+    for n in walk(fn["body"]):
+        if n.get("k") == "LetStmt":
+            bs = [b for b in pat_bindings(n["pat"])]
+            for b in bs:
+                decl[b["local"]] = (n, set(x["local"] for x in bs) - {b["local"]})
+                names[b["local"]] = b["name"]
+    assigned = {}
+    for n in walk(fn["body"]):
+        if n.get("k") in ("Assign", "AssignOp"):
+            t = peel_refs(n["l"])
+            if t.get("k") == "Path" and "local" in t:
+                assigned.setdefault(t["local"], []).append(n)
+    for n, anc in with_parents(fn["body"]):
+        if n.get("k") != "If":
+            continue
+        loops = [a for a in anc if a.get("k") == "Loop"]
+        if not loops:
+            continue
+        loop = loops[-1]
+        cond = strip(n["c"])
+        if cond.get("k") != "Binary" or cond["op"] not in ("<", "<=", ">", ">="):
+            continue
+        inside = set()
+        for x in walk(loop):
+            if x.get("k") == "LetStmt":
+                inside |= set(b["local"] for b in pat_bindings(x["pat"]))
+            if x.get("k") == "Match":
+                for arm in x["arms"]:
+                    inside |= set(b["local"] for b in pat_bindings(arm["pat"]))
+        sides = []
+        for side in (cond["l"], cond["r"]):
+            t = peel_refs(side)
+            if t.get("k") == "Path" and "local" in t and t["local"] in decl and t["local"] not in inside:
+                sides.append(t["local"])
+        if len(sides) != 1:
+            continue
+        best = sides[0]
+        then = n["then"]
+        if any(x.get("k") in ("Break", "Ret") for x in walk(then)):
+            continue
+        saved = set()
+        for x in walk(then):
+            if x.get("k") in ("Assign",):
+                t = peel_refs(x["l"])
+                if t.get("k") == "Path" and "local" in t and t["local"] in decl and t["local"] not in inside and t["local"] != best:
+                    saved.add(t["local"])
+        if not saved:
+            continue
+        evidence = None
+        if decl[best][1] & saved:
+            evidence = "declared together with `%s`" % ", ".join(sorted(names[v] for v in decl[best][1] & saved))
+        else:
+            init = decl[best][0].get("init")
+            if init is not None and decl[best][0]["pat"].get("k") == "Bind":
+                kind, text = const_kind(c, init)
+                if kind in ("low", "high"):
+                    evidence = "starts from %s" % text
+            if evidence is None and best in assigned:
+                evidence = "assigned elsewhere"
+        if evidence is None:
+            continue
+        upd = [a for a in assigned.get(best, []) if any(x is a for x in walk(loop))]
+        yield {"node": n, "best": best, "best_name": names.get(best, "?"), "saved": sorted(names[v] for v in saved), "updated": bool(upd), "evidence": evidence}
